@@ -23,7 +23,7 @@ if os.path.exists(vp):
 meta["id"] = "%s-%s" % (pid, dk)
 meta["breaks_property"] = pid
 meta["confirmed_in_scratch_worktree"] = {kk: ver.get(kk) for kk in ("applies", "builds", "baseline_green", "baseline_note", "demo_fails_with_change", "demo_passes_without_change", "verdict", "commands", "observed")}
-meta["round"] = {"out": 1, "out2": 2, "out3": 3, "out4": 4, "out5": 5, "out6": 6, "out7": 7}.get(pre, 1)
+meta["round"] = {"out": 1, "out2": 2, "out3": 3, "out4": 4, "out5": 5, "out6": 6, "out7": 7, "out8": 8}.get(pre, 1)
 meta["check_run"] = ("tools/seedeval2.sh %s " % pre if pre != "out" else "tools/seedeval.sh ") + "%s %s  (= git apply of patch.diff on a scratch copy of /repo, then ./check %s --tier quick with VERIF_REPO pointing at the copy)" % (pid, k, pid)
 meta["check_result"] = caught
 if extra:
